@@ -119,6 +119,25 @@ def dispatch_prepare(scn, viol):
     if k == "walk":
         t = viol.get("tick")
         return dict(scn, requests=scn["requests"][: t + 1]) if t is not None else scn
+    if k == "sys" and viol.get("tick") is not None and "pipes" in scn:
+        # a shorter run that still reaches the violating tick (kept only if it reproduces: the runner re-executes it)
+        import copy
+        s = copy.deepcopy(scn)
+        tps = s["cfg"]["tps"]
+        nt = viol["tick"] + 2
+        if nt / tps < s["cfg"]["duration"]:
+            s["cfg"]["duration"] = nt / tps
+            s["pipes"] = [p for p in s["pipes"] if p.get("at", 0) <= viol["tick"]]
+            try:
+                out = sys_execute(copy.deepcopy(s), None)
+                if out.get("violation") and out["violation"]["rule"] == viol["rule"]:
+                    return s
+                for a in (out.get("violation") or {}).get("detail", {}).get("also", []):
+                    if a["rule"] == viol["rule"]:
+                        return s
+            except Exception:  # noqa: BLE001
+                pass
+        return scn
     if k != "ex":
         return scn
     return ex_prepare_replay(scn, viol)
